@@ -20,6 +20,7 @@ where
         let mut rng = Rng::for_scenario(ctx.seed, &ctx.prop, i);
         let mut o = Outcome::default();
         let r = std::panic::catch_unwind(std::panic::AssertUnwindSafe(|| f(i, &mut rng, &mut o)));
+        tag_scenario(&mut o, i);
         if let Err(p) = r {
             let msg = panic_msg(&p);
             o.violation(format!("{}|panic|{}", ctx.prop, crate::util::first_words(&msg, 12)), format!("panic in scenario {i}: {msg}"), serde_json::json!({"scenario": i, "seed": ctx.seed, "panic": msg}));
@@ -52,7 +53,10 @@ where
                         o
                     }));
                     match r {
-                        Ok(o) => local.merge(o),
+                        Ok(mut o) => {
+                            tag_scenario(&mut o, i);
+                            local.merge(o)
+                        }
                         Err(p) => {
                             let msg = panic_msg(&p);
                             local.evaluations += 1;
@@ -73,6 +77,21 @@ where
         out.info.push(format!("wall-clock budget reached after {} scenarios of {}", out.evaluations, n));
     }
     out
+}
+
+/// every witness names the scenario it came from (what `--replay` re-runs)
+fn tag_scenario(o: &mut Outcome, i: u64) {
+    for v in &mut o.violations {
+        match &mut v.replay {
+            serde_json::Value::Object(m) => {
+                m.entry("scenario").or_insert(serde_json::json!(i));
+            }
+            other => {
+                let old = other.take();
+                *other = serde_json::json!({"scenario": i, "witness": old});
+            }
+        }
+    }
 }
 
 pub fn panic_msg(p: &Box<dyn std::any::Any + Send>) -> String {
